@@ -568,6 +568,15 @@ fn no_element_no_call(rep: &mut Report, next_id: &mut u64) {
             ("nosuch(aa(xs))", vec![ia], Some("unknown-function")),
             ("nosuch(aa(xs), bb(xs))", vec![ia, ib], Some("unknown-function")),
             ("bb(nosuch(aa(xs)))", vec![ia], Some("unknown-function")),
+            // every value expression of a multi-select hash is evaluated, in order, also when a later member has the same name
+            ("{v: aa(xs), \"v\": bb(xs)}", vec![ia, ib], None),
+            ("{a: aa(xs), b: xs, a: bb(xs)}", vec![ia, ib], None),
+            ("{v: aa(xs), v: aa(xs)}", vec![ia, ia], None),
+            ("[{k: aa(xs), \"\\u006b\": bb(xs), k: aa(xs)}]", vec![ia, ib, ia], None),
+            ("xs[*].{v: aa(@), \"v\": @}", vec![ia, ia, ia], None),
+            ("{v: nosuch(aa(xs)), \"v\": xs}", vec![ia], Some("unknown-function")),
+            ("{v: xs, \"v\": nosuch(bb(xs))}", vec![ib], Some("unknown-function")),
+            ("[aa(xs), aa(xs)] | [bb(@), bb(@)]", vec![ia, ia, ib, ib], None),
         ] {
             rep.evaluations += 1;
             LOG.with(|l| l.borrow_mut().clear());
@@ -587,6 +596,53 @@ fn no_element_no_call(rep: &mut Report, next_id: &mut u64) {
                     json!({"expression": text, "document": doc, "expected_calls": want_ids, "observed_calls": ids, "expected_error": want_err,
                            "got": format!("{:?}", got.map(|r| r.map(|v| v.to_string()).map_err(|e| e.to_string())))}),
                 );
+            }
+        }
+    }
+    // a registered function is what its name calls, also when the name is a built-in's and also when the call is
+    // applied to its own result: one call per written call, inner first, each given the previous result
+    for with_builtins in [true, false] {
+        let mut rt2 = Runtime::new();
+        if with_builtins {
+            rt2.register_builtin_functions();
+        }
+        const SHADOWED: [&str; 12] = ["to_string", "to_array", "to_number", "length", "keys", "values", "abs", "not_null", "type", "reverse", "sort", "max"];
+        let base = *next_id + 1;
+        *next_id += SHADOWED.len() as u64;
+        for (k, n) in SHADOWED.iter().enumerate() {
+            // not idempotent: wraps its argument
+            let id = base + k as u64;
+            rt2.register_function(n, Box::new(move |a: &[Rcvar], ctx: &mut Context<'_>| {
+                LOG.with(|l| l.borrow_mut().push(CallRec { id, args: a.iter().map(show_arg).collect(), expression: ctx.expression.to_string() }));
+                Ok(rcvar_of(&json!({"by": id, "of": a.first().and_then(|x| value_of(x).ok())})))
+            }));
+        }
+        for (fi, f) in SHADOWED.iter().enumerate() {
+            for (gi, g) in SHADOWED.iter().enumerate() {
+                if fi != gi && (fi * 5 + gi) % 4 != 0 {
+                    continue;
+                }
+                let (idf, idg) = (base + fi as u64, base + gi as u64);
+                for (text, want_ids, want) in [
+                    (format!("{}({}(xs))", f, g), vec![idg, idf], json!({"by": idf, "of": {"by": idg, "of": [1, 20, 3]}})),
+                    (format!("{}({}({}(xs)))", f, g, f), vec![idf, idg, idf], json!({"by": idf, "of": {"by": idg, "of": {"by": idf, "of": [1, 20, 3]}}})),
+                    (format!("xs | {}({}(@))", f, g), vec![idg, idf], json!({"by": idf, "of": {"by": idg, "of": [1, 20, 3]}})),
+                ] {
+                    rep.evaluations += 1;
+                    LOG.with(|l| l.borrow_mut().clear());
+                    let got = guarded(|| rt2.compile(&text).and_then(|e| e.search(rcvar_of(&doc))));
+                    let ids: Vec<u64> = LOG.with(|l| l.borrow().iter().map(|r| r.id).collect());
+                    let ok = ids == want_ids && matches!(&got, Ok(Ok(v)) if value_of(v).map_or(false, |x| x == want));
+                    if ok {
+                        rep.count("registered_function_under_a_builtin_name_called_once_per_written_call");
+                    } else {
+                        rep.violation(
+                            "C15/wrong-function-called",
+                            json!({"expression": text, "runtime": if with_builtins { "built-ins, then these names re-registered" } else { "only these names registered" }, "expected_calls": want_ids, "observed_calls": ids,
+                                   "expected": want, "got": format!("{:?}", got.map(|r| r.map(|v| v.to_string()).map_err(|e| e.to_string())))}),
+                        );
+                    }
+                }
             }
         }
     }
